@@ -4,9 +4,18 @@
    (licenses being atoms, a "license WITH exception" triple being grouped first, greedily, into
    one atom) is parsed to tree_or e: AND binds tighter than OR, a run of one operator is one n-ary
    node in text order, a parenthesised compound is a nested node, parentheses around a single
-   license vanish. The string level (layout, case, known names) rests on the tokenizer theorems of
-   C01 / C04 / C16 and on the correspondence; see DESIGN.md. *)
-Require Import Model.Base Model.Expr Model.LicTok Model.BoolParse Proofs.BoolParse Proofs.WithGroup.
+   license vanish.
+   Text level (C02_text_parses_to_its_tree): let the non-blank pieces of a text be cut into blocks -
+   runs of pieces that spell a stored name (a key, an alias or one of and / or / with / ( / ), in
+   any case) and non-empty runs of other pieces, no two of the latter adjacent - such that every
+   occurrence of a stored name reported by the scan lies inside a name block (the "no crossing"
+   proviso of the property: words that are part of a known name belong to one operand). Then every
+   name block becomes the token of its name, every other run becomes one unknown license whose key
+   is its words joined by single spaces, and if these tokens spell a derivation e of the grammar
+   (WITH triples grouped first), parse returns tree_or e. Premise: U+0020 is white space.
+   Proofs/Segments.v (the matcher yields exactly one token per segment) and Proofs/Blocks.v. *)
+Require Import Model.Base Model.Expr Model.Split Model.Trie Model.LicTok Model.BoolParse Model.Licensing.
+Require Import Proofs.BoolParse Proofs.WithGroup Proofs.Trie Proofs.Segments Proofs.Blocks Proofs.SimpleAgree.
 
 Theorem C02_bparse_complete : forall e : orx, bparse (tok_or e) = POk (tree_or e).
 Proof. exact bparse_complete. Qed.
@@ -21,6 +30,25 @@ Theorem C02_grouping_is_greedy : forall ts, group_with ts = greedy ts.
 Proof. exact group_with_greedy. Qed.
 Print Assumptions C02_grouping_is_greedy.
 
+Theorem C02_text_parses_to_its_tree : forall O, is_space O 32%N = true -> forall T text blocks ltoks items (e : orx),
+  concat (map bpieces blocks) = filter (is_word_piece O) (pieces O text) ->
+  (forall g v, In (BM g v) blocks -> g <> [] /\ exists sp, get_out (lws O g) (outs (build_trie O T)) = Some (sp, v)) ->
+  (forall t, In t (t_iter O (build_trie O T) text) -> exists g v, In (BM g v) blocks /\ (lo g <= tstart t)%Z /\ (tend t <= hi g)%Z) ->
+  (forall g, In (BU g) blocks -> g <> []) -> separated blocks ->
+  mapo (btok O text) blocks = Ok ltoks -> ltoks = flat_map flat items -> Forall item_ok items ->
+  map (ptok_of O) items = tok_or e ->
+  parse_tokens O T false false text = Ok (tree_or e).
+Proof. exact parse_blocks. Qed.
+Print Assumptions C02_text_parses_to_its_tree.
+
+Theorem C02_one_token_per_segment : forall V O (tr : trie V), wf_trie tr -> forall text (segs : list (@seg V)),
+  concat (map (@spieces V) segs) = filter (is_word_piece O) (pieces O text) ->
+  (forall g v, In (SM g v) segs -> g <> [] /\ exists sp, get_out (lws O g) (outs tr) = Some (sp, v)) ->
+  (forall t, In t (t_iter O tr text) -> exists g v, In (SM g v) segs /\ (lo g <= tstart t)%Z /\ (tend t <= hi g)%Z) ->
+  Overlap.t_tokenize O tr text = map (stok text) segs.
+Proof. intros V O. exact (@tokenize_segments V O). Qed.
+Print Assumptions C02_one_token_per_segment.
+
 (* non-vacuity: a or (b and (c or d)) and e, with arbitrary token strings and positions *)
 Example C02_example : forall i (a b c d e : atom),
   bparse (tok_or (OCons (A1 (PA a i)) i
@@ -28,3 +56,45 @@ Example C02_example : forall i (a b c d e : atom),
                              (A1 (PA e i))))))
   = POk (Or [Lit a; And [And [Lit b; Or [Lit c; Lit d]]; Lit e]]).
 Proof. intros. apply bparse_complete. Qed.
+
+(* the premises of the text-level theorem are satisfiable: "GNU  gpl or (zz yy)" over a table with the alias "gnu gpl",
+   proved through C02_text_parses_to_its_tree *)
+Require Import Model.Index Proofs.Recognise.
+Open Scope Z_scope.
+Definition C02_T0 : list entry := [ {| ekey := [103; 112; 108]%N; ealiases := [[103; 110; 117; 32; 103; 112; 108]%N]; eexc := false |} ].
+Definition tx : str := [71; 78; 85; 32; 32; 103; 112; 108; 32; 111; 114; 32; 40; 122; 122; 32; 121; 121; 41]%N.
+Definition p0 := {| pstart := 0; ptext := [71; 78; 85]%N |}.
+Definition p1 := {| pstart := 5; ptext := [103; 112; 108]%N |}.
+Definition p2 := {| pstart := 9; ptext := [111; 114]%N |}.
+Definition p3 := {| pstart := 12; ptext := [40]%N |}.
+Definition p4 := {| pstart := 13; ptext := [122; 122]%N |}.
+Definition p5 := {| pstart := 16; ptext := [121; 121]%N |}.
+Definition p6 := {| pstart := 18; ptext := [41]%N |}.
+Definition gpl := {| key := [103; 112; 108]%N; exc := false |}.
+Definition zzyy := {| key := [122; 122; 32; 121; 121]%N; exc := false |}.
+Definition bl : list block := [BM [p0; p1] (VSym gpl); BM [p2] (VKw KOr); BM [p3] (VKw KLp); BU [p4; p5]; BM [p6] (VKw KRp)].
+Definition lt := match mapo (btok ascii_oracle tx) bl with Ok l => l | _ => [] end.
+Definition nth_t n := nth n lt {| tstart := 0; tend := 0; tstring := []; tvalue := None |}.
+Definition its : list item := [ISym (nth_t 0) gpl; IKw (nth_t 1) KOr; IKw (nth_t 2) KLp; ISym (nth_t 3) zzyy; IKw (nth_t 4) KRp].
+Definition inf n : info := (tstring (nth_t n), tstart (nth_t n)).
+Definition ex : orx := OCons (A1 (PA (Plain gpl) (inf 0))) (inf 1) (O1 (A1 (PP (inf 2) (inf 4) (O1 (A1 (PA (Plain zzyy) (inf 3))))))).
+Example C02_text_example : parse_tokens ascii_oracle C02_T0 false false tx = Ok (Or [Lit (Plain gpl); Lit (Plain zzyy)]).
+Proof.
+  change (Or [Lit (Plain gpl); Lit (Plain zzyy)]) with (tree_or ex).
+  apply (C02_text_parses_to_its_tree ascii_oracle eq_refl C02_T0 tx bl lt its ex).
+  - vm_compute. reflexivity.
+  - intros g v H. simpl in H. destruct H as [H|[H|[H|[H|[H|[]]]]]]; try discriminate H; inversion H; subst; (split; [discriminate | eexists; vm_compute; reflexivity]).
+  - intros t Ht. vm_compute in Ht.
+    destruct Ht as [<-|[<-|[<-|[<-|[<-|[]]]]]].
+    + exists [p0; p1], (VSym gpl). split; [left; reflexivity | vm_compute; split; discriminate].
+    + exists [p0; p1], (VSym gpl). split; [left; reflexivity | vm_compute; split; discriminate].
+    + exists [p2], (VKw KOr). split; [right; left; reflexivity | vm_compute; split; discriminate].
+    + exists [p3], (VKw KLp). split; [right; right; left; reflexivity | vm_compute; split; discriminate].
+    + exists [p6], (VKw KRp). split; [do 4 right; left; reflexivity | vm_compute; split; discriminate].
+  - intros g H. simpl in H. destruct H as [H|[H|[H|[H|[H|[]]]]]]; try discriminate H; inversion H; subst; discriminate.
+  - exact I.
+  - vm_compute. reflexivity.
+  - vm_compute. reflexivity.
+  - repeat constructor; vm_compute; try reflexivity; try discriminate.
+  - vm_compute. reflexivity.
+Qed.
